@@ -13,6 +13,8 @@ start=$(date +%s)
 code=$?
 end=$(date +%s)
 git -C /repo checkout -q -- .
+# leave the binary in step with the (reverted) tree
+( cd /verif/sim && cargo build --release --offline > /dev/null 2>&1 )
 grep -E "^VIOLATION|^KNOWN|^HARNESS|signature:|^\[wsim\] C|cross-process" /tmp/try_patch.$$.log | cut -c1-260
 echo "RESULT patch=$(basename "$patch") property=$id exit=$code secs=$((end-start))"
 rm -f /tmp/try_patch.$$.log
